@@ -85,6 +85,8 @@ def defined_oids(spec, allspecs):
     if r is None:
         return []
     out = [r]
+    if spec.get('own_ent') and not spec.get('smiv1') and spec.get('variant', 'ok') != 'badref':
+        out += [(1, 3, 6, 1), (1, 3, 6, 1, 4), (1, 3, 6, 1, 4, 1)]
     for a in spec.get('arcs', []):
         out.append(r + (a,))
     for i, d in enumerate(spec.get('imports', [])):
@@ -140,6 +142,9 @@ def render(spec, allspecs=None):
     lines = []
     imps = list(spec.get('imports', []))
     smi_syms = ['OBJECT-TYPE', 'enterprises', 'Integer32']
+    own_ent = bool(spec.get('own_ent')) and not spec.get('smiv1') and v not in ('badref',)
+    if own_ent:
+        smi_syms.remove('enterprises')        # the module spells out the path down to `enterprises` itself (old vendor SMI style)
     if spec.get('identity'):
         smi_syms.insert(0, 'MODULE-IDENTITY')
     if spec.get('smiv1'):
@@ -172,6 +177,9 @@ def render(spec, allspecs=None):
     lines[-1] += ';'
     lines.append('')
     parent = root_sym(spec['oidparent']) if spec.get('oidparent') else 'enterprises'
+    if own_ent:
+        lines += ['internet OBJECT IDENTIFIER ::= { iso org(3) dod(6) 1 }', 'private OBJECT IDENTIFIER ::= { internet 4 }',
+                  'enterprises OBJECT IDENTIFIER ::= { private 1 }', '']
     if v == 'badref':
         if spec.get('oidparent'):
             parent = '%sNoSuchNode' % sym(spec['oidparent'])
@@ -378,6 +386,8 @@ def gen_modules(rng, n, cycles=True, defects=0.0, compliance=0.3, identity=0.7, 
             spec['foreign_ent'] = rng.choice([100000, 9, 99990, 1000001])
         if rng.random() < 0.12:
             spec['zero_arc'] = True
+        if rng.random() < 0.08:
+            spec['own_ent'] = True
         if shadow and rng.random() < shadow and not spec.get('smiv1'):
             # the only symbol taken from this module carries the name of a textual convention that every module also
             # gets from SNMPv2-TC: the module is named in IMPORTS all the same
